@@ -54,30 +54,42 @@ let rec nat_of_int (n : int) : nat = if n <= 0 then O else S (nat_of_int (n - 1)
 
 let hwopt (s : string) : z option = if s = "-" then None else Some (z_of_hex s)
 
-let parse_ev (op : string) : sim_ev =
-  match words op with
+(* a trailing `bad4` / `badi` marks a frame whose ICMP / IPv4-header checksum is corrupted; it only
+   matters when the interface verifies receive checksums (case config ck=both, the default) *)
+let parse_ev (verify : bool) (op : string) : sim_ev =
+  let ws = words op in
+  let last = List.nth ws (List.length ws - 1) in
+  let bad = if last = "bad4" || last = "badi" then last else "" in
+  let ws = if bad <> "" then List.filteri (fun k _ -> k < List.length ws - 1) ws else ws in
+  let bad = if verify then bad else "" in
+  let pl (p : v6payload) = if bad = "bad4" then P6Bad else p in
+  match ws with
   | "addrs" :: l -> SAddrs (List.map cidr_of l)
   | ["send"; s; d; tag] -> SSend (nat_of_int (int_of_string s), ip_of d, zs tag)
   | ["arp"; edst; o; sha; spa; tpa] ->
       SRx (RxArp (z_of_hex edst, zs o, z_of_hex sha, ip_raw spa, ip_raw tpa))
   | ["ip4"; edst; esrc; src; dst] ->
-      SRx (RxV4Echo (z_of_hex edst, z_of_hex esrc, ip_raw src, ip_raw dst))
+      if bad = "badi" then SRx (RxJunk (z_of_hex edst))
+      else if bad = "bad4" then SRx (RxV4Bad (z_of_hex edst, z_of_hex esrc, ip_raw src, ip_raw dst))
+      else SRx (RxV4Echo (z_of_hex edst, z_of_hex esrc, ip_raw src, ip_raw dst))
+  | ["sethw"; h] -> SSetHw (z_of_hex h)
+  | ["txb"; b] -> STxb (if b = "-" then None else Some (zs b))
   | ["ip6"; edst; esrc; src; dst; hop; "echo"] ->
-      SRx (RxV6 (z_of_hex edst, z_of_hex esrc, ip_raw src, ip_raw dst, zs hop, P6Echo))
+      SRx (RxV6 (z_of_hex edst, z_of_hex esrc, ip_raw src, ip_raw dst, zs hop, pl P6Echo))
   | ["ip6"; edst; esrc; src; dst; hop; "na"; tgt; ll; ovr] ->
       SRx (RxV6 (z_of_hex edst, z_of_hex esrc, ip_raw src, ip_raw dst, zs hop,
-                 P6Na (ip_raw tgt, hwopt ll, ovr = "1")))
+                 pl (P6Na (ip_raw tgt, hwopt ll, ovr = "1"))))
   | ["ip6"; edst; esrc; src; dst; hop; "ns"; tgt; ll] ->
       SRx (RxV6 (z_of_hex edst, z_of_hex esrc, ip_raw src, ip_raw dst, zs hop,
-                 P6Ns (ip_raw tgt, hwopt ll)))
+                 pl (P6Ns (ip_raw tgt, hwopt ll))))
   | ["r154"; panok; ldst; lsrc; src; dst; hop; "echo"] ->
-      SRx (Rx154 (panok = "1", z_of_hex ldst, z_of_hex lsrc, ip_raw src, ip_raw dst, zs hop, P6Echo))
+      SRx (Rx154 (panok = "1", z_of_hex ldst, z_of_hex lsrc, ip_raw src, ip_raw dst, zs hop, pl P6Echo))
   | ["r154"; panok; ldst; lsrc; src; dst; hop; "na"; tgt; ll; ovr] ->
       SRx (Rx154 (panok = "1", z_of_hex ldst, z_of_hex lsrc, ip_raw src, ip_raw dst, zs hop,
-                  P6Na (ip_raw tgt, hwopt ll, ovr = "1")))
+                  pl (P6Na (ip_raw tgt, hwopt ll, ovr = "1"))))
   | ["r154"; panok; ldst; lsrc; src; dst; hop; "ns"; tgt; ll] ->
       SRx (Rx154 (panok = "1", z_of_hex ldst, z_of_hex lsrc, ip_raw src, ip_raw dst, zs hop,
-                  P6Ns (ip_raw tgt, hwopt ll)))
+                  pl (P6Ns (ip_raw tgt, hwopt ll))))
   | ["rtdef4"; g] -> SRtDef4 (ip_raw g)
   | ["rtdef6"; g] -> SRtDef6 (ip_raw g)
   | ["rtrmdef4"] -> SRtRmDef4
@@ -107,9 +119,10 @@ let () =
                     (zs (cfg_get cfg "cap" "8")) (zs (cfg_get cfg "rcap" "2"))
                     (zs (cfg_get cfg "qcap" "4")) kinds) in
     let dead = ref false in
+    let verify = cfg_get cfg "ck" "both" = "both" in
     List.iter (fun op ->
       if not !dead then begin
-        let ev = parse_ev op in
+        let ev = parse_ev verify op in
         match sim_step !st ev with
         | Ok ((st', frames), r) ->
             st := st';
@@ -117,7 +130,9 @@ let () =
              | SAddrs _ -> print_string "ok\n"
              | SRx _ -> print_string "rx\n"
              | SPoll now ->
-                 List.iter (fun f -> print_string (show_frame f); print_char '\n') frames;
+                 (* every frame of a poll carries the interface's current hardware address as sender *)
+                 let from = hex_of_z st'.sim_if.if_hw in
+                 List.iter (fun f -> Printf.printf "%s from=%s\n" (show_frame f) from) frames;
                  Printf.printf "q%s\n" (String.concat "" (List.map (fun x -> " " ^ sz x) (sim_qlens st')));
                  (match sim_poll_at st' now with
                   | None -> print_string "pollat none\n"
